@@ -203,7 +203,7 @@ def check_proofs(pid, coq_ok, coq_log):
     closed = out.count('Closed under the global context')
     ax = re.findall(r'^\s*(\w[\w.]*)\s*:', out[out.find('Axioms:'):], re.M) if 'Axioms:' in out else []
     res['axioms'] = sorted(set(ax))
-    res['discharged'] = closed + (len(thms) - closed if False else 0)
+    res['discharged'] = min(closed, len(thms))
     if closed < len(thms):
         # theorems whose Print Assumptions lists axioms: allowed only if in the allow-list
         allowed = set()
